@@ -3,7 +3,7 @@
 import ast
 import re as re_
 
-from .. import proto, roles
+from .. import dtypes, proto, roles
 from ..core import AnalysisError
 from ..proto import NC, NCEval
 from ..src import arg_names, calls_in, unparse
@@ -437,6 +437,7 @@ def run(ctx):
     guards(ctx)
     def_assign(ctx)
     packing(ctx)
+    dtypes.dtype_folds(ctx)
     block_matvec(ctx)
     gf_algebra(ctx)
     space_hash(ctx)
